@@ -78,6 +78,12 @@ def _decompose(diff, cols, bound=400):
 def oracle(case, r):
     if not r or "rows" not in r: return "implementation failed: %s" % json.dumps(r)[:300]
     spec = case["spec"]; M_s2i = None
+    # "mass action" means the law of THIS reaction's reactants: the built model's propensity must read exactly them (what the clause
+    # "mass-action networks never report a negative count" rests on) -- seeded change S6_C06
+    if r.get("ma_species") and len(r["ma_species"]) == len(spec["reactions"]):
+        for i_, (rx_, got_) in enumerate(zip(spec["reactions"], r["ma_species"])):
+            if rx_["type"] == "massaction" and "species" not in rx_["params"] and got_ is not None and got_ != sorted(rx_["reactants"]):
+                return "mass action: reaction %d (%s -> %s) was built with a propensity over %r, not over its own reactants" % (i_, " + ".join(rx_["reactants"]) or "0", " + ".join(rx_["products"]) or "0", got_)
     rows = [[float.fromhex(v) for v in row] for row in r["rows"]]
     # species order of the implementation = order of the sim tokens' x0; recover names through the spec order of first use
     names = _species_order(spec)
